@@ -65,12 +65,16 @@ type Step struct {
 	Src   []byte            `json:"src,omitempty"`
 	Files []string          `json:"files,omitempty"` // names relative to Case.Dir
 	Mode  string            `json:"mode,omitempty"`
+	Text  []byte            `json:"text,omitempty"`     // also run the program on this text in memory
+	WantMatches bool        `json:"want_matches,omitempty"`
 }
 
 type StepResult struct {
 	CompileErr string            `json:"compile_err,omitempty"`
 	Panic      *PanicInfo        `json:"panic,omitempty"`
 	NMatches   int               `json:"n_matches"`
+	Matches    []Match           `json:"matches,omitempty"`
+	StringMatches []Match        `json:"string_matches,omitempty"`
 	Contents   map[string][]byte `json:"contents"` // every regular file in the directory after the step
 }
 
